@@ -24,6 +24,9 @@ fn compare<F: Family>(data: &[u8], one: &PollRun<F>, run: &PollRun<F>, what: &st
     if run.result != one.result {
         return Err(format!("{}: result {} differs from the uninterrupted run's {} on stream {}", what, show(run), show(one), hex_short(data, 64)));
     }
+    if run.lost_wakeup {
+        return Err(format!("{}: the decoder returned Pending in a poll in which the task's waker was not woken (the transport wakes the waker it is handed): the decode would never be polled again; stream {}", what, hex_short(data, 64)));
+    }
     if run.spurious_pending {
         return Err(format!("{}: the decoder returned Pending in a poll in which the transport did not; stream {}", what, hex_short(data, 64)));
     }
